@@ -7,4 +7,4 @@ Extraction Language OCaml.
 Definition entries : list (Z * (list Z -> list Z)) :=
   [ (1, entry_mid) ].
 
-Extraction "model.ml" entries.
+Extraction "model_mid.ml" entries.
